@@ -89,6 +89,19 @@ class C03(F.Spec):
 
     def cases(self, rng, tier):
         self.rows, self.disp = load_table()
+        # generator guidance only: where the translator no longer recognises a size rule (or a call is missing from the
+        # regenerated table) the structure of the messages is taken from a snapshot of the table of the pinned tree
+        try:
+            import json
+            ref = json.load(open(os.path.join(os.path.dirname(os.path.abspath(__file__)), "..", "ref", "getdata_rows.json")))
+            for k, v in ref["rows"].items():
+                cur = self.rows.get(int(k))
+                if (cur is None or cur[0] not in ("exact", "valid")) and v[0] in ("exact", "valid"):
+                    self.rows[int(k)] = (v[0], v[1], v[2])
+            if not self.disp:
+                self.disp = ref["disp"]
+        except (OSError, ValueError):
+            pass
         n = 250 if tier == "quick" else 4000
         # a well-formed authorised recalibrate whose 32-bit channel number is an alias (modulo 256) of a shutter's channel
         # names no channel of the device: nothing may change
@@ -132,7 +145,9 @@ class C03(F.Spec):
                 elif k == "valid":
                     main, item, mx, fo, fw = a
                     hdr = main - item * mx
-                    cnt = rng.choice([0, 1, 2, mx, mx - 1, mx + 1, 255, 65535])
+                    cnt = rng.choice([0, 1, 2, mx, mx - 1, mx + 1, mx + 1, mx + 2, 255, 65535])
+                    if hdr + cnt * item > 1536 and rng.random() < .5:
+                        cnt = rng.choice([mx + 1, min(mx + 40, max(mx + 1, (1536 - hdr) // max(item, 1)))])   # beyond the maximum but inside the frame limit
                     decl = cnt if rng.random() < .6 else rng.choice([0, cnt + 1, max(cnt - 1, 0), 2 ** (8 * fw) - 1, 2 ** (8 * fw - 1)])
                     n = hdr + cnt * item + rng.choice([0, 0, 0, -1, 1])
                     n = max(0, min(n, 1536))
